@@ -22,7 +22,11 @@ from harness.core import Failure, Prop
 from harness.props import c07 as c07mod
 
 VOLATILE_DEVICE = c07mod.VOLATILE_DEVICE
-STATIC = c07mod.STATIC
+STATIC = c07mod.STATIC + [
+    {'port_id': 'lp3', 'type_': 'boolean', 'writable': True, 'initial': None},     # a relay
+    {'port_id': 'lp4', 'type_': 'number', 'writable': True, 'initial': None},      # a dimmer
+]
+WRITABLE_STATIC = {'lp1': 'number', 'lp3': 'boolean', 'lp4': 'number'}
 VPORT_LIMIT = 6           # settings.core.virtual_ports of the hub under test: low, so that restores run near the limit
 SLAVE_PREFIX_IDS = ['v1', 'slv1_light', 'slv12.fan', 'slv1x']     # ids having a slave's name as a proper prefix
 OTHER_IDS = ['w1', 'w2', 'w3']
@@ -96,6 +100,18 @@ class C20(Prop):
                    ['add', {'id': 'garage_light', 'type': 'boolean'}], ['add', {'id': 'garage2.fan', 'type': 'number'}],
                    ['add', {'id': 'kitchen', 'type': 'number'}], ['patch', 'garage_light', {'tag': 'g'}]],
              'B': [['del', 'garage_light'], ['sput', []]]},
+            # non-virtual writable ports enabled with a value in the backup, disabled (other value) on the target
+            {'canon': [['e', 'NOT($lp3)', 'NOT($lp3)']], 'xf': [], 'corrupt': ['none', 0],
+             'A': [['patch', 'lp3', {'enabled': True, 'tag': 'relay'}], ['val', 'lp3', True],
+                   ['patch', 'lp4', {'enabled': True, 'gain': 3}], ['val', 'lp4', 40],
+                   ['patch', 'lp1', {'enabled': True}], ['val', 'lp1', 12]],
+             'B': [['val', 'lp3', False], ['val', 'lp4', 0], ['patch', 'lp3', {'enabled': False}],
+                   ['patch', 'lp4', {'enabled': False, 'gain': 1}], ['val', 'lp1', 5]]},
+            # corrupted PUT /devices and PUT /device documents with slaves present
+            {'canon': [], 'xf': [], 'corrupt': ['type', 0], 'corrupt_devices': ['nohost', 1], 'corrupt_device': 'type',
+             'A': [['sput', [g._slave_doc('slv1', 1, {'name': 'slv1', 'flags': 'f'}),
+                             g._slave_doc('slv2', 2, {'name': 'slv2', 'flags': 'f'})]], ['add', {'id': 'v1', 'type': 'number'}]],
+             'B': [['sdel', 'slv2']]},
             # source and target together exceed the virtual port limit, each alone does not; restore twice
             {'canon': [], 'xf': [], 'corrupt': ['none', 0],
              'A': [['add', {'id': f'v{i}', 'type': 'number'}] for i in (1, 2, 3)],
@@ -122,8 +138,25 @@ class C20(Prop):
             # the target holds other virtual ports: target + source together run into the limit
             for pid in rng.sample(OTHER_IDS, rng.choice([1, 2, 3])):
                 B.insert(rng.randrange(len(B) + 1), ['add', {'id': pid, 'type': rng.choice(['number', 'boolean'])}])
+        for pid, typ in WRITABLE_STATIC.items():
+            if rng.random() < 0.6:
+                va, vb = (rng.choice([(True, False), (False, True)]) if typ == 'boolean'
+                          else rng.sample([0, 5, 12, 40, 77], 2))
+                ea, eb = rng.random() < 0.75, rng.random() < 0.4
+                # source: enabled (mostly) with a value; target: another value, then (mostly) disabled
+                A += [['patch', pid, {'enabled': True, 'expression': '', 'transform_read': '', 'transform_write': '',
+                                      'gain': rng.randint(0, 9)}], ['val', pid, va]]
+                if not ea:
+                    A.append(['patch', pid, {'enabled': False}])
+                B += [['patch', pid, {'enabled': True, 'expression': '', 'transform_read': '', 'transform_write': '',
+                                      'tag': rng.choice(['', 'b'])}], ['val', pid, vb]]
+                if not eb:
+                    B.append(['patch', pid, {'enabled': False}])
         return {'canon': full['canon'], 'xf': full['xf'], 'A': A, 'B': B,
-                'corrupt': [rng.choice(['type', 'expr', 'def', 'none']), rng.randrange(6)]}
+                'corrupt': [rng.choice(['type', 'expr', 'def', 'none']), rng.randrange(6)],
+                'corrupt_devices': [rng.choice(['nohost', 'noport', 'noscheme', 'porttype', 'scheme', 'pathtype', 'none']),
+                                    rng.randrange(4)],
+                'corrupt_device': rng.choice(['type', 'name', 'none'])}
 
     def shrink_candidates(self, case):
         for key in ('B', 'A'):
@@ -142,11 +175,13 @@ class C20(Prop):
         h = self.b.FakeHandler(method='PUT')
         await f_devices.put_slave_devices(h, [])
         await f_ports.put_ports(h, [])
-        for pid in ('lp1', 'lp2'):
+        for pid in ('lp1', 'lp2', 'lp3', 'lp4'):
             a = {'display_name': '', 'tag': '', 'enabled': False, 'persisted': False, 'internal': False, 'gain': 1,
                  'note': '', 'transform_read': ''}
-            if pid == 'lp1':
-                a.update(expression='', transform_write='', unit='')
+            if pid != 'lp2':
+                a.update(expression='', transform_write='')
+            if pid in ('lp1', 'lp4'):
+                a.update(unit='')
             await f_ports.patch_port(self.b.FakeHandler(method='PATCH'), pid, a)
         await self.b._run_op(['dev', {'name': 'hub0', 'display_name': '', 'admin_password': '', 'normal_password': '',
                                       'viewonly_password': ''}])
@@ -197,11 +232,13 @@ class C20(Prop):
         await self.b._settle(4)
         out['b'] = await self.b._dump()
         out['b_hashes'] = self.b._hashes()
+        out['b_vals'] = self.b._vals()
         for d in (out['a'], out['b']):
             for s in d.get('devices', []):
                 s.pop('webhooks', None)          # added by the harness dump, not part of GET /devices
         out['put'] = await self._put_all(out['a'])
         out['c'] = await self.b._dump()
+        out['c_vals'] = self.b._vals()
         # a second restore of the same backup on the (now equal) hub must be accepted and change nothing
         out['put2'] = await self._put_all(out['a'])
         out['c2'] = await self.b._dump()
@@ -233,8 +270,65 @@ class C20(Prop):
             out['bad_res'] = (self.b._err(e), getattr(e, 'params', {}).get('id'))
         await self.b._settle(2)
         out['d_ids'] = sorted(p['id'] for p in (await self.b._dump())['ports'])
-        # ---- switches: a value change must still produce an event, update() must still poll
-        from qtoggleserver.core import ports as core_ports
+        out['polled'], out['event'] = await self._probe()
+        # ---- corrupted PUT /devices: the error must carry the index of the entry; switches on afterwards
+        from qtoggleserver.slaves.api.funcs import devices as f_devices
+        from qtoggleserver.core.api.funcs import device as f_device
+        kind, k = case.get('corrupt_devices', ['none', 0])
+        sdocs = copy.deepcopy(out['a'].get('devices', []))
+        g = c07mod.C07()
+        while len(sdocs) < 2:
+            n = len(sdocs) + 7
+            sdocs.append(g._slave_doc(f'extra{n}', n, {'name': f'extra{n}', 'flags': 'f'}))
+        out['sbad_index'] = None
+        if kind != 'none':
+            i = k % len(sdocs)
+            out['sbad_index'] = i
+            if kind == 'nohost':
+                sdocs[i].pop('host')
+            elif kind == 'noport':
+                sdocs[i].pop('port')
+            elif kind == 'noscheme':
+                sdocs[i].pop('scheme')
+            elif kind == 'porttype':
+                sdocs[i]['port'] = 'eighty'
+            elif kind == 'scheme':
+                sdocs[i]['scheme'] = 'ftp'
+            elif kind == 'pathtype':
+                sdocs[i]['path'] = 7
+            sdocs[i]['unknown_field'] = 1          # unknown fields are tolerated by the loose entry schema
+        out['sbad_n'] = len(sdocs)
+        try:
+            await f_devices.put_slave_devices(self.b.FakeHandler(method='PUT'), copy.deepcopy(sdocs))
+            out['sbad_res'] = ('ok', None)
+        except Exception as e:
+            out['sbad_res'] = (self.b._err(e), getattr(e, 'params', {}).get('index'))
+        await self.b._settle(2)
+        out['sbad_left'] = len((await self.b._dump()).get('devices', []))
+        out['s_polled'], out['s_event'] = await self._probe()
+        # ---- corrupted PUT /device: the error names the attribute, nothing changes
+        kind = case.get('corrupt_device', 'none')
+        ddoc = copy.deepcopy(out['a']['device'])
+        if kind == 'type':
+            ddoc['display_name'] = 5
+        elif kind == 'name':
+            ddoc['name'] = 'not a valid name!'
+        before_dev = {k2: v for k2, v in (await self.b._dump())['device'].items() if k2 not in VOLATILE_DEVICE}
+        try:
+            await f_device.put_device(self.b.FakeHandler(method='PUT'), ddoc)
+            out['dbad_res'] = ('ok', None)
+        except Exception as e:
+            out['dbad_res'] = (self.b._err(e), getattr(e, 'params', {}).get('field') or getattr(e, 'params', {}).get('attribute'))
+        await self.b._settle(2)
+        after_dev = {k2: v for k2, v in (await self.b._dump())['device'].items() if k2 not in VOLATILE_DEVICE}
+        out['dbad_unchanged'] = before_dev == after_dev
+        out['d_polled'], out['d_event'] = await self._probe()
+        return out
+
+    async def _probe(self):
+        """switches: a driver-side value change must still be polled and must still produce a value-change event"""
+        from qtoggleserver.core import main as core_main, ports as core_ports
+        from qtoggleserver.core.api.funcs import ports as f_ports
         probe = core_ports.get('lp1')
         await f_ports.patch_port(self.b.FakeHandler(method='PATCH'), 'lp1', {'enabled': True, 'expression': '', 'internal': False,
                                                                               'transform_read': '', 'transform_write': ''})
@@ -247,9 +341,7 @@ class C20(Prop):
         await core_main.update()
         for _ in range(5):
             await asyncio.sleep(0)
-        out['polled'] = probe.get_last_read_value() == newv
-        out['event'] = 'value-change' in self.events
-        return out
+        return probe.get_last_read_value() == newv, 'value-change' in self.events
 
     # ------------------------------------------------------------------ one case
     def run_case(self, case, driver):
@@ -304,10 +396,86 @@ class C20(Prop):
         if fail is None and not (out['polled'] and out['event']):
             fail = Failure('property', f'after the {"rejected" if out["bad_id"] else "accepted"} PUT /ports: polling works='
                            f'{out["polled"]}, value-change event delivered={out["event"]}')
+        # ---- rejected PUT /devices and PUT /device
+        sres, sidx = out['sbad_res']
+        if out['sbad_index'] is not None:
+            tags.add('corrupt-devices:' + case['corrupt_devices'][0])
+            if fail is None and not sres.startswith('err:4'):
+                fail = Failure('property', f'PUT /devices: corrupted entry #{out["sbad_index"]} was not rejected: {sres}')
+            if fail is None and sidx != out['sbad_index']:
+                fail = Failure('property', f'PUT /devices: the error names entry {sidx!r}, the failing entry is '
+                               f'#{out["sbad_index"]} ({sres})')
+        elif fail is None and sres != 'ok':
+            fail = Failure('property', f'PUT /devices: a valid document was rejected: {sres}')
+        if fail is None and not (out['s_polled'] and out['s_event']):
+            fail = Failure('property', f'after the {"rejected" if out["sbad_index"] is not None else "accepted"} PUT /devices: '
+                           f'polling works={out["s_polled"]}, value-change event delivered={out["s_event"]}')
+        dres, dfield = out['dbad_res']
+        dk = case.get('corrupt_device', 'none')
+        if dk != 'none':
+            tags.add('corrupt-device:' + dk)
+            want = 'display_name' if dk == 'type' else 'name'
+            if fail is None and (not dres.startswith('err:4') or dfield != want):
+                fail = Failure('property', f'PUT /device with a bad {want}: expected a client error naming it, got {dres}')
+            if fail is None and not out['dbad_unchanged']:
+                fail = Failure('property', 'a rejected PUT /device changed the device attributes')
+        elif fail is None and dres != 'ok':
+            fail = Failure('property', f'PUT /device: a valid document was rejected: {dres}')
+        if fail is None and not (out['d_polled'] and out['d_event']):
+            fail = Failure('property', f'after PUT /device ({dres}): polling works={out["d_polled"]}, value-change event '
+                           f'delivered={out["d_event"]}')
+        # ---- model: restore of the non-virtual writable ports (enabled flag applied before the value is decided)
+        if fail is None:
+            enc = c07mod.encp
+            driver.ask('begin')
+            srcp = {p['id']: p for p in out['a']['ports']}
+            tgtp = {p['id']: p for p in out['b']['ports']}
+            ents, cmp_ids = [], []
+            for pid in sorted(WRITABLE_STATIC):
+                tv = enc(out['b_vals'].get(pid))
+                sv = enc(srcp[pid].get('value'))
+                if tv is None or sv is None:
+                    continue
+                driver.ask(f'static {pid} {"e" if tgtp[pid].get("enabled") else "d"} {tv}')
+                ents.append(f'{pid}/n/d/enabled:{"g" if srcp[pid].get("enabled") else "f"}/{sv}')
+                if srcp[pid].get('enabled') and not srcp[pid].get('expression') and xf_ok(srcp[pid]):
+                    cmp_ids.append(pid)
+            if ents:
+                rep = driver.ask('put ' + ' '.join(ents))
+                mvals = dict(x.split('=', 1) for x in rep.rsplit('vals=', 1)[1].split(',') if x)
+                for pid in cmp_ids:
+                    rv = enc(out['c_vals'].get(pid))
+                    if mvals.get(pid) != rv:
+                        tags.add('static-value-restored')
+                        fail = Failure('property' if rv != enc(srcp[pid].get('value')) else 'correspondence',
+                                       f'restore of non-virtual port {pid} (enabled in the backup with value '
+                                       f'{srcp[pid].get("value")!r}; on the target enabled={tgtp[pid].get("enabled")}, value '
+                                       f'{out["b_vals"].get(pid)!r}): the hub has value {out["c_vals"].get(pid)!r}, the model {mvals.get(pid)}',
+                                       real=rv, model=mvals.get(pid))
+                        break
+                if cmp_ids:
+                    tags.add('static-ports-compared')
+        # ---- model: PUT /devices and PUT /device on the abstracted corrupted documents
+        if fail is None:
+            flags = ['v'] * out['sbad_n']
+            if out['sbad_index'] is not None:
+                flags[out['sbad_index']] = 'x'
+            rep = driver.ask('sput ' + ' '.join(flags))
+            parts = rep.split(' ')
+            mres = 'ok' if parts[0] == 'ok' else ('err', int(parts[1]))
+            rres = 'ok' if sres == 'ok' else ('err', sidx)
+            mleft = int(parts[-1].split('=')[1])
+            if mres != rres or 'updating=1' not in parts or 'events=1' not in parts or mleft != out['sbad_left']:
+                fail = Failure('correspondence', f'PUT /devices on the corrupted document: hub {rres} leaving {out["sbad_left"]} '
+                               f'devices, model {rep}', real=[rres, out['sbad_left']], model=rep)
+        if fail is None:
+            rep = driver.ask('dput ' + ('x' if dk != 'none' else 'v'))
+            if (rep.split(' ')[0] == 'ok') != (dres == 'ok'):
+                fail = Failure('correspondence', f'PUT /device: hub {dres}, model {rep}', real=dres, model=rep)
         # ---- model: same outcome, same ports, switches on
         if fail is None:
             driver.ask('begin')
-            for pid in ('lp1', 'lp2'):
+            for pid in ('lp1', 'lp2', 'lp3', 'lp4'):
                 driver.ask(f'static {pid}')
             for pid in sorted(after['ports']):
                 if after['ports'][pid].get('virtual'):
@@ -328,7 +496,7 @@ class C20(Prop):
             parts = rep.split(' ')
             mres = 'ok' if parts[0] == 'ok' else ('err', parts[1])
             rres = 'ok' if res == 'ok' else ('err', eid)
-            mports = [x for x in parts[-1].split('=', 1)[1].split(',') if x]
+            mports = [x for x in next(q for q in parts if q.startswith('ports=')).split('=', 1)[1].split(',') if x]
             if mres != rres or 'updating=1' not in parts or 'events=1' not in parts:
                 fail = Failure('correspondence', f'PUT of the corrupted document: hub {rres}, model {rep}', real=rres, model=rep)
             elif mports != out['d_ids']:
